@@ -14,6 +14,7 @@ import (
 	"fmt"
 	"math"
 	"os"
+	"strings"
 	"testing"
 	"time"
 
@@ -62,9 +63,10 @@ var (
 var variant int
 
 var (
-	vStr  = []string{"value", "needs \"escape\"\n\t", "caf\u00e9 \xff \u2028"}
-	vStrs = [][]string{{"a", "b"}, {"q\"", "\n", ""}, {"\xff\xfe", "\u00e9"}}
-	vByt  = [][]byte{[]byte("bytes"), []byte("q\"\\\n"), {0xff, 0x00, 0x7f}}
+	// class 2 is LONG (more than 32 and more than 64 bytes: beyond any small on-stack conversion buffer) and needs escaping
+	vStr  = []string{"value", "needs \"escape\"\n\t", "caf\u00e9 \xff \u2028 " + strings.Repeat("long \"quoted\" tail\n", 4)}
+	vStrs = [][]string{{"a", "b"}, {"q\"", "\n", ""}, {"\xff\xfe", "\u00e9", strings.Repeat("x\"y", 20)}}
+	vByt  = [][]byte{[]byte("bytes"), []byte("q\"\\\n"), append([]byte{0xff, 0x00, 0x7f, '"'}, bytes.Repeat([]byte("0123456789\"\xc3\xa9"), 6)...)}
 	vF32  = []float32{1.5, 1e-7, float32(math.Inf(1))}
 	vF64  = []float64{1e21, 1e-7, math.NaN()}
 	vFs32 = [][]float32{{1.5, 2}, {1e-7, 3e38}, {float32(math.NaN()), 0}}
